@@ -509,8 +509,13 @@ def run_check(prop_id, tier, seed, replay=None, shard=None, out=None, cases=None
         evidence["coverage"]["atheris"] = fuzz_info
     if exhaustive and getattr(mod, "EXHAUSTIVE_NOTE", None):
         evidence["coverage"]["exhaustive_note"] = mod.EXHAUSTIVE_NOTE
-    os.makedirs(os.path.join(VERIF_DIR, "evidence"), exist_ok=True)
-    with open(os.path.join(VERIF_DIR, "evidence", "%s.json" % prop_id), "w") as fp:
+    # evidence/ describes runs against /repo itself; a run against another tree (VERIF_REPO=<scratch copy>, used by the
+    # mutation and seeded-change tools) leaves it alone and writes next to its scratch data instead
+    repo = os.environ.get("VERIF_REPO") or "/repo"
+    evidence_dir = os.path.join(VERIF_DIR, "evidence") if os.path.realpath(repo) == os.path.realpath("/repo") else os.path.join(sandbox.root(), "evidence")
+    evidence["tree"] = os.path.realpath(repo)
+    os.makedirs(evidence_dir, exist_ok=True)
+    with open(os.path.join(evidence_dir, "%s.json" % prop_id), "w") as fp:
         json.dump(evidence, fp, indent=1, sort_keys=True)
 
     # -- verdict -----------------------------------------------------------------------------
